@@ -131,9 +131,8 @@ def condLoop (lines : Lines) (start : Nat) : Nat → Nat → CondSt → PM (Cond
   | 0, _, _ => .error .fuel
   | f + 1, i, s =>
     if h : i < lines.size then
-      let line := lines[i]
-      let st := stripL line
-      let has := s.cur.isSome
+      match lines[i], stripL lines[i], s.cur.isSome with
+      | line, st, has =>
       if sw st "#" then condLoop lines start f (i + 1) s
       else if (sw st "<<py" || sw st "@py") && has then do
         let s ← s.flushPlain
@@ -155,8 +154,7 @@ def condLoop (lines : Lines) (start : Nat) : Nat → Nat → CondSt → PM (Cond
         condLoop lines start f (i + 1) (match hookTok st false with | some d => s.push d | none => s)
       else if sw st "~ " && has then do
         let s ← s.flushPlain
-        let code := stmtCode (st.drop 2)
-        let (ls, n) ← liftPy "extract_multiline_expression" (multiline lines.toList i code)
+        let (ls, n) ← liftPy "extract_multiline_expression" (multiline lines.toList i (stmtCode (st.drop 2)))
         condLoop lines start f (i + n) (s.push (stmtTok (joinNl ls)))
       else if (sw st "<<if " || sw st "@if ") && i != start && has then do
         let s ← s.flushPlain
@@ -216,8 +214,8 @@ def loopBody (aligned : Lines) (bodyStart : Nat) : Nat → Nat → List J → Op
   | 0, _, _, _ => .error .fuel
   | f + 1, j, content, chs =>
     if h : bodyStart + j < aligned.size then
-      let line := aligned[bodyStart + j]
-      let st := stripL line
+      match aligned[bodyStart + j], stripL aligned[bodyStart + j] with
+      | line, st =>
       if sw st "#" then loopBody aligned bodyStart f (j + 1) content chs
       else if sw st "<<py" || sw st "@py" then do
         let (code, n) ← extractPythonBlock aligned (bodyStart + j)
@@ -233,8 +231,7 @@ def loopBody (aligned : Lines) (bodyStart : Nat) : Nat → Nat → List J → Op
       else if sw st "@unhook " then
         loopBody aligned bodyStart f (j + 1) (match hookTok st false with | some d => content ++ [d] | none => content) chs
       else if sw line "~ " then do
-        let code := stmtCode (line.drop 2)
-        let (ls, n) ← liftPy "extract_multiline_expression" (multiline aligned.toList (bodyStart + j) code)
+        let (ls, n) ← liftPy "extract_multiline_expression" (multiline aligned.toList (bodyStart + j) (stmtCode (line.drop 2)))
         loopBody aligned bodyStart f (j + n) (content ++ [stmtTok (joinNl ls)]) chs
       else if sw st "<<for " || sw st "@for " then do
         let (nested, n) ← extractLoop aligned f (bodyStart + j)
@@ -261,17 +258,12 @@ def extractLoop (lines : Lines) : Nat → Nat → PM (J × Nat)
   | 0, _ => .error .fuel
   | f + 1, start =>
     if h : start < lines.size then do
-      let st := stripL lines[start]
       -- (the caller only calls on a `<<for ` / `@for ` line)
-      let (var, coll) ← loopHeader st start
+      let (var, coll) ← loopHeader (stripL lines[start]) start
       let (raw, i, found) ← loopCollect lines f (start + 1) 1 []
       let (content, chs) ←
         if raw.isEmpty then pure ([], none)
-        else
-          let ded := dedent raw
-          let bodyStart := start + 1
-          let aligned : Lines := lines.extract 0 bodyStart ++ ded.toArray
-          loopBody aligned bodyStart f 0 [] none
+        else loopBody (lines.extract 0 (start + 1) ++ (dedent raw).toArray) (start + 1) f 0 [] none
       if !found then synErr start "@for block never closed"
       else
         pure (.obj ([("type", jstr "for_loop"), ("variable", .str var), ("collection", .str coll), ("content", .arr content)]
